@@ -293,7 +293,10 @@ def gen_history(rng, nrevs, opts=None):
                   tz=rng.choice([0, 3600, -18000, 19800, -12600]),
                   committer=rng.choice(COMMITTERS),
                   props=rng.choice([{}, {}, {"branch-nick": "nick %d" % i}, {"empty": ""},
-                                    {"author": "Someone <s@x>", "x-prop": "v:1"}]))
+                                    {"author": "Someone <s@x>", "x-prop": "v:1"},
+                                    # values that contain the `key: value` separator of the 0.9 bundle footer
+                                    {"review-note": "see: ticket %d: handle the edge case" % i},
+                                    {"bugs": "https://example.org/bug/%d fixed" % i, "note": "ends with colon:", "k": "a: b: c"}]))
         revs.append(rv)
         by_id[rid] = rv
         tips.append(rid)
